@@ -50,19 +50,33 @@ pub fn run(tier: Tier) -> i32 {
                 rep.violation("token-table-full", v, J::obj().set("kind", J::s("token-table")).set("fill", J::i(fill as u64)).set("others", J::i(1)).set("repeats", J::i(repeats as u64)));
             }
         }
+        // the history of used tokens is as long on a small server as on a big one
+        for max in [1usize, 2, 3] {
+            for others in [1usize, 2, 3, 5, 9] {
+                n += 1;
+                if let Some(v) = token_table_case_on(max, 0, others, 0) {
+                    rep.violation("token-table-full", v, J::obj().set("kind", J::s("token-table")).set("fill", J::i(0)).set("others", J::i(others as u64)).set("max_clients", J::i(max as u64)));
+                }
+            }
+        }
         rep.add_sweep("token-table-full", n, n, 4, vec!["fill in {2047,2048,2049,2100} old tokens, then token T from address A, {0,1,3} other new tokens, T from address B".into()]);
     }
     rep.finish()
 }
 
 pub fn token_table_case(fill: usize, others: usize, repeats: usize) -> Option<crate::explore::Violation> {
+    token_table_case_on(8, fill, others, repeats)
+}
+
+/// the same on a server with `max_clients` slots (the history of used tokens does not depend on the slot count)
+pub fn token_table_case_on(max_clients: usize, fill: usize, others: usize, repeats: usize) -> Option<crate::explore::Violation> {
     use crate::explore::Violation;
     use crate::nc::{self, client_addr, make_token, new_server, server_addr, TokenSpec, SR};
     use crate::props::hsworld::request_datagram;
     use renetcode::verif::Packet;
     use std::time::Duration;
     let public = vec![server_addr(0)];
-    let mut server = new_server(8, public.clone(), Duration::ZERO);
+    let mut server = new_server(max_clients, public.clone(), Duration::ZERO);
     let r = (|| -> Result<(), Violation> {
         for i in 0..fill {
             let mut sp = TokenSpec::new(10_000 + i as u64, (i % 251) as u8, public.clone());
@@ -144,7 +158,8 @@ pub fn replay(j: &J) -> i32 {
         let others = j.get("others").and_then(|x| x.as_i()).unwrap_or(1) as usize;
         let repeats = j.get("repeats").and_then(|x| x.as_i()).unwrap_or(0) as usize;
         println!("token table case: {} fillers, {} other tokens, {} retransmissions of one request", fill, others, repeats);
-        return match token_table_case(fill, others, repeats) {
+        let max = j.get("max_clients").and_then(|x| x.as_i()).unwrap_or(8) as usize;
+        return match token_table_case_on(max, fill, others, repeats) {
             Some(v) => {
                 println!("RESULT: violation {} — {}", v.signature, v.message);
                 1
